@@ -103,7 +103,7 @@ def check(chk, facts):
                    "encode(%s) = %s, decode(%s) = %s%s" % (v, w, w0, back, "" if ok else " — the two tables are not inverse on this value"),
                    where=fe.where(), fn=fe.name, key="%s:%s:%s" % (rule, enc_adt.split("::")[-1], v),
                    sample={"enum": enc_adt.split("::")[-1], "value": v, "encoded": w, "decoded_back": back})
-    chk.floor(rule, "table rows", n, 19)
+    chk.floor(rule, "table rows", n, 18)
     # PST operator names: to_name / from_name are inverse on the extension operators
     for opk in ("UnaryOp", "BinaryOp", "VariadicOp"):
         adt = "cedar_policy_core::pst::expr::" + opk
